@@ -78,6 +78,9 @@ def run_property(prop, tier, seed, jobs):
     mod = _load(prop)
     meta = getattr(mod, "PROPERTY", {})
     cids = [c for c in CONTRACTS if CONTRACTS[c].prop == prop]
+    only = os.environ.get("TVERIF_ONLY")        # development aid: run the contracts whose id contains one of the comma-separated fragments (evidence goes to out/)
+    if only:
+        cids = [c for c in cids if any(f in c for f in only.split(","))]
     timeout_ms = 20000 if tier == "quick" else 120000
     both = tier == "thorough"
     tasks = []
@@ -235,7 +238,7 @@ def run_property(prop, tier, seed, jobs):
         "wall_s": round(time.time() - t0, 2), "violations": len(violations),
     }
     # evidence describes /repo; a run on another tree (TVERIF_REPO: seeded-change evaluation) writes to out/ instead
-    evdir = os.path.join(VERIF, "evidence") if REPO == "/repo" else os.path.join(VERIF, "out", "evidence_other_tree")
+    evdir = os.path.join(VERIF, "evidence") if (REPO == "/repo" and not only) else os.path.join(VERIF, "out", "evidence_other_tree")
     os.makedirs(evdir, exist_ok=True)
     json.dump(ev, open(os.path.join(evdir, f"{prop}.json"), "w"), indent=1, default=str)
     print(f"{prop} [{tier}] contracts={len(cids)} structures={len(tasks)} obligations={n_obl} discharged={n_dis} failed={len(failed)} "
